@@ -194,7 +194,9 @@ OUT_NAMES = {'rel': 'result.out', 'rel_nested': 'sub dir/nested.out', 'rel_nosuf
              'rel_upper': 'Report.OUT', 'rel_dotted': 'v1.2/res.v3.out', 'rel_txt': 'case.txt'}
 FAULTS = ['enospc', 'eio', 'eacces', 'vanish', 'cancel']
 FAULT_AT = [1, 2, 3, 4, 5, 6, 7, 8, 10, 12, 15, 20, 25, 30, 40]
-SLOT_PATHS = ['in/req0.txt', 'in dir/req 1.txt', 'deep/a/b/req2.txt']
+# (the last one lives in the decoy directory under a name that also exists, relative to the package directory, in the
+# repository: an entry point that resolves a relative input path after changing directory reads the wrong file)
+SLOT_PATHS = ['in/req0.txt', 'in dir/req 1.txt', 'deep/a/b/req2.txt', 'decoy/Examples/example1.txt']
 
 
 def gen_request(cs, templates, kind=None, allow_slow=False, fail=None, neighbour_of=None):
@@ -275,7 +277,7 @@ def gen_history(cs, templates, tier, force=None):
     elif theme == 'paths':
         kinds = ['run'] * 6 + ['chdir'] * 3 + ['rewrite', 'argv', 'delete']
         entries = ['cli'] * 5 + ['main_argv', 'client', 'hip']
-        slot_tab = [0, 0, 1, 2]
+        slot_tab = [0, 0, 1, 2, 3, 3]
         client_tab = [0, 0, 2, 1]
         p_neighbour = 1
     else:
